@@ -60,7 +60,7 @@ HARNESSES = [
 ]
 GROUPS = {"spec": "(check_spec pinned)"}
 EXPLAIN = {"spec": "(explain_spec pinned)"}
-CASES = {"quick": 900, "thorough": 14000}
+CASES = {"quick": 2000, "thorough": 16000}
 RULE = ("cases: one raw configuration document of one kind (every registered filter kind, Retry, CircuitBreaker, Pipeline, ...) "
         "generated from the struct tags by reflection (optional fields present/absent, boundary numbers, empty lists, duplicates, "
         "null entries, dangling references, wrong types) + requests derived from the document; non-trivial = the document "
